@@ -330,6 +330,11 @@ func genGL(t *rapid.T, hostile bool) glSpec {
 		g.Meta.TSMap = &vttTSMap{LocalMs: genMs(t, "local"), MpegTS: rapid.Int64Range(0, 1<<33).Draw(t, "mpegts")}
 	}
 	ids := []string{"s1", "s01", "a", "B", "s10", "s010"} // s1/s01 and s10/s010 tie under a "natural" ordering
+	if rapid.IntRange(0, 3).Draw(t, "idpool") == 0 {
+		// the identifier the WebVTT reader gives to the style holding a file's STYLE blocks, among identifiers sorting
+		// on either side of it (a list read from a .vtt file to which the caller added styles)
+		ids = []string{"a", "astisub-webvtt-default-style-id", "B", "s1", "0", "astisub"}
+	}
 	ns := rapid.IntRange(0, 6).Draw(t, "nstyles")
 	css := []string{"::cue { color: red }", "::cue(b) { }", "/* x */ ::cue(.loud) { font-size: 2em }"}
 	for i := 0; i < ns; i++ {
